@@ -95,7 +95,10 @@ pub struct Case {
     pub names: Vec<Name>,
     pub groups: Vec<Group>,
     pub table: BTreeMap<(usize, usize, u16), Resp>,
+    /// all queries in execution order; for a `conc` line: warm-up, then the concurrent batch, then probes
     pub queries: Vec<(usize, u16)>,
+    /// `conc` lines: (number of warm-up queries, size of the concurrent batch)
+    pub conc: Option<(usize, usize)>,
 }
 
 pub fn ip_tok(ip: &IpAddr) -> String {
@@ -188,7 +191,7 @@ fn list_tok<T>(xs: &[T], sep: &str, f: impl Fn(&T) -> String) -> String {
 
 impl Case {
     pub fn parse(t: &[&str]) -> Option<Case> {
-        if t.len() != 12 || t[0] != "res" {
+        if t.len() != 12 || (t[0] != "res" && t[0] != "conc") {
             return None;
         }
         let names = parse_list(t[8], ',', parse_name)?;
@@ -207,10 +210,26 @@ impl Case {
         })? {
             table.insert(e.0, e.1);
         }
-        let queries = parse_list(t[11], ';', |q| {
-            let (n, ty) = q.split_once(',')?;
-            Some((n.parse().ok()?, ty.parse().ok()?))
-        })?;
+        let parse_qs = |tok: &str| {
+            parse_list(tok, ';', |q| {
+                let (n, ty) = q.split_once(',')?;
+                Some((n.parse::<usize>().ok()?, ty.parse::<u16>().ok()?))
+            })
+        };
+        let (queries, conc) = if t[0] == "conc" {
+            let parts: Vec<&str> = t[11].split('|').collect();
+            if parts.len() != 3 {
+                return None;
+            }
+            let (w, b_, p) = (parse_qs(parts[0])?, parse_qs(parts[1])?, parse_qs(parts[2])?);
+            if b_.is_empty() || b_.len() > 8 {
+                return None;
+            }
+            let conc = Some((w.len(), b_.len()));
+            (w.into_iter().chain(b_).chain(p).collect::<Vec<_>>(), conc)
+        } else {
+            (parse_qs(t[11])?, None)
+        };
         let c = Case {
             rl: t[1].parse().ok()?,
             nl: t[2].parse().ok()?,
@@ -223,6 +242,7 @@ impl Case {
             groups,
             table,
             queries,
+            conc,
         };
         // indices in range
         let nn = c.names.len();
@@ -247,8 +267,14 @@ impl Case {
     }
 
     pub fn line(&self) -> String {
+        let qtok = |qs: &[(usize, u16)]| list_tok(qs, ";", |(n, t)| format!("{n},{t}"));
+        let queries = match self.conc {
+            None => qtok(&self.queries),
+            Some((w, b_)) => format!("{}|{}|{}", qtok(&self.queries[..w]), qtok(&self.queries[w..w + b_]), qtok(&self.queries[w + b_..])),
+        };
         format!(
-            "res {} {} {} {} {} {} {} {} {} {} {}",
+            "{} {} {} {} {} {} {} {} {} {} {} {}",
+            if self.conc.is_some() { "conc" } else { "res" },
             self.rl,
             self.nl,
             list_tok(&self.roots, ",", ip_tok),
@@ -259,7 +285,7 @@ impl Case {
             list_tok(&self.names, ",", name_tok),
             list_tok(&self.groups, ";", |g| format!("{}@{}", list_tok(&g.ips, ",", ip_tok), resp_tok(&g.default))),
             list_tok(&self.table.iter().collect::<Vec<_>>(), ";", |((g, n, t), r)| format!("{g},{n},{t}={}", resp_tok(r))),
-            list_tok(&self.queries, ";", |(n, t)| format!("{n},{t}")),
+            queries,
         )
     }
 
@@ -355,6 +381,8 @@ struct MockNet {
     case: Arc<Case>,
     log: Arc<Mutex<Vec<Event>>>,
     rt: TokioRuntimeProvider,
+    /// servers answer after this delay (concurrent-clients cases: the lookups must really overlap)
+    delay: Duration,
 }
 
 #[derive(Clone)]
@@ -380,7 +408,11 @@ impl DnsHandle for MockConn {
             // through the wire format once, as a real transport would
             let bytes = msg.to_vec().map_err(NetError::from)?;
             // let other tasks interleave, as a real socket would
-            tokio::task::yield_now().await;
+            if this.net.delay.is_zero() {
+                tokio::task::yield_now().await;
+            } else {
+                tokio::time::sleep(this.net.delay).await;
+            }
             DnsResponse::from_buffer(bytes).map_err(NetError::from)
         }))
     }
@@ -419,6 +451,9 @@ struct QueryOutcome {
     /// returned records (message sections, or the payload of a negative / referral error), canonical
     records: Vec<(String, Record)>,
     events: Vec<Event>,
+    /// number of resolutions whose events this outcome carries (the first client of a concurrent batch
+    /// carries the events of the whole batch, the others none)
+    weight: u128,
 }
 
 fn classify(res: Result<Message, RecursorError>) -> (String, u16, bool, Vec<(String, Record)>) {
@@ -471,7 +506,7 @@ fn run_case(case: Arc<Case>) -> Result<Vec<QueryOutcome>, String> {
     let rt = tokio::runtime::Builder::new_current_thread().enable_all().build().map_err(|e| e.to_string())?;
     rt.block_on(async move {
         let log = Arc::new(Mutex::new(vec![]));
-        let net = MockNet { case: case.clone(), log: log.clone(), rt: TokioRuntimeProvider::default() };
+        let net = MockNet { case: case.clone(), log: log.clone(), rt: TokioRuntimeProvider::default(), delay: if case.conc.is_some() { Duration::from_millis(2) } else { Duration::ZERO } };
         let options = RecursorOptions {
             recursion_limit: case.rl,
             ns_recursion_limit: case.nl,
@@ -483,7 +518,30 @@ fn run_case(case: Arc<Case>) -> Result<Vec<QueryOutcome>, String> {
         };
         let recursor = Recursor::with_options(&case.roots, options, net).map_err(|e| format!("build: {e}"))?;
         let mut out = vec![];
-        for (n, t) in &case.queries {
+        let (warm, batch) = case.conc.unwrap_or((case.queries.len(), 0));
+        let mut k = 0;
+        while k < case.queries.len() {
+            if k == warm && batch > 0 {
+                // the concurrent clients: all resolutions are polled together on this thread
+                log.lock().unwrap().clear();
+                let futs = case.queries[k..k + batch].iter().map(|(n, t)| {
+                    let q = Query::new(case.names[*n].clone(), RecordType::from(*t));
+                    recursor.resolve(q, Instant::now(), false)
+                });
+                let res = tokio::time::timeout(Duration::from_secs(60), futures_util::future::join_all(futs)).await;
+                let events = log.lock().unwrap().clone();
+                let Ok(res) = res else {
+                    return Err("hang".to_string());
+                };
+                for (i, r) in res.into_iter().enumerate() {
+                    let (class, rcode, aa, records) = classify(r);
+                    let first = i == 0;
+                    out.push(QueryOutcome { class, rcode, aa, records, events: if first { events.clone() } else { vec![] }, weight: if first { batch as u128 } else { 0 } });
+                }
+                k += batch;
+                continue;
+            }
+            let (n, t) = &case.queries[k];
             let q = Query::new(case.names[*n].clone(), RecordType::from(*t));
             log.lock().unwrap().clear();
             let res = tokio::time::timeout(Duration::from_secs(60), recursor.resolve(q, Instant::now(), false)).await;
@@ -492,7 +550,8 @@ fn run_case(case: Arc<Case>) -> Result<Vec<QueryOutcome>, String> {
                 return Err("hang".to_string());
             };
             let (class, rcode, aa, records) = classify(res);
-            out.push(QueryOutcome { class, rcode, aa, records, events });
+            out.push(QueryOutcome { class, rcode, aa, records, events, weight: 1 });
+            k += 1;
         }
         Ok(out)
     })
@@ -502,7 +561,7 @@ fn run_case(case: Arc<Case>) -> Result<Vec<QueryOutcome>, String> {
 fn run_with_watchdog(case: Arc<Case>) -> Result<Vec<QueryOutcome>, String> {
     let (tx, rx) = std::sync::mpsc::channel();
     std::thread::Builder::new()
-        .stack_size(32 << 20)
+        .stack_size(4 << 20)
         .spawn(move || {
             let r = catch(|| run_case(case));
             let _ = tx.send(match r {
@@ -786,10 +845,20 @@ fn fmt_outcome(c: &Case, o: &QueryOutcome) -> String {
     )
 }
 
+/// class, rcode, AA and records only — what is deterministic for a client of a concurrent batch
+fn fmt_short(o: &QueryOutcome) -> String {
+    let mut recs: Vec<String> = o.records.iter().map(|(s, r)| format!("{s}:{}", canon_record(r))).collect();
+    recs.sort();
+    recs.dedup();
+    format!("{} {} {} [{}]", o.class, o.rcode, b(o.aa), recs.join(","))
+}
+
 pub fn exec(line: &str, rec: &mut Recorder) {
     let t: Vec<&str> = line.split_whitespace().collect();
+    // if the code under test kills the process (stack overflow, abort) bin/check reports this case
+    rec.announce(line);
     match t.first() {
-        Some(&"res") => exec_res(line, &t, rec),
+        Some(&"res") | Some(&"conc") => exec_res(line, &t, rec),
         Some(&"stub") => stub::exec(line, &t, rec),
         _ => rec.stat("skipped.unparsable-case"),
     }
@@ -817,7 +886,28 @@ fn exec_res(line: &str, t: &[&str], rec: &mut Recorder) {
             return;
         }
     };
-    let out_line = outs.iter().map(|o| fmt_outcome(&case, o)).collect::<Vec<_>>().join(" | ");
+    let out_line = match case.conc {
+        None => outs.iter().map(|o| fmt_outcome(&case, o)).collect::<Vec<_>>().join(" | "),
+        Some((w, b_)) => outs
+            .iter()
+            .enumerate()
+            .map(|(k, o)| {
+                // a client that gave up (depth limit, unreachable / refusing servers) leaves a partial cache state
+                // that depends on the interleaving: the probes then have no deterministic model side
+                let unstable = outs[w..(w + b_).min(outs.len())].iter().any(|x| x.class == "err" || x.class == "limit");
+                if k < w {
+                    fmt_outcome(&case, o)
+                } else if k < w + b_ {
+                    format!("B:{}", fmt_short(o))
+                } else if unstable {
+                    "P:~".to_string()
+                } else {
+                    format!("P:{}", fmt_short(o))
+                }
+            })
+            .collect::<Vec<_>>()
+            .join(" | "),
+    };
     if std::env::var_os("C19_DEBUG").is_some() {
         eprintln!("homog={homog} {out_line}");
     }
@@ -831,7 +921,24 @@ fn exec_res(line: &str, t: &[&str], rec: &mut Recorder) {
         // keep the observed summary in the stats sample but give the model no side to compare
         rec.case(line.to_string(), "~".to_string())
     };
-    rec.stat("op.res");
+    rec.stat(if case.conc.is_some() { "op.conc" } else { "op.res" });
+    if let Some((_, b_)) = case.conc {
+        rec.stat(&format!("conc.clients.{b_}"));
+        let (lo, hi) = (case.conc.unwrap().0, case.conc.unwrap().0 + b_);
+        let same = case.queries[lo..hi].iter().all(|q| *q == case.queries[lo]);
+        rec.stat(if same { "conc.identical-queries" } else { "conc.different-queries" });
+        if !case.deny_ans.is_empty() {
+            rec.stat("conc.answer-filter-set");
+        }
+        // request de-duplication observed: fewer final-query sends than identical clients
+        if same && outs.len() > lo {
+            let (qn, qt) = case.queries[lo];
+            let sends = outs[lo].events.iter().filter(|e| matches!(e, Event::Send(_, n, t) if *n == case.names[qn] && *t == qt)).count();
+            if sends > 0 && sends < b_ {
+                rec.stat("conc.de-duplicated-lookup-observed");
+            }
+        }
+    }
     rec.stat(&format!("queries.{}", case.queries.len()));
     rec.stat(&format!("limits.nl{}", if case.nl < 4 { "<4" } else if case.nl < 12 { "<12" } else { ">=12" }));
 
@@ -914,7 +1021,7 @@ fn exec_res(line: &str, t: &[&str], rec: &mut Recorder) {
             }
         }
         // (3) bounded work
-        if n_sends > bound {
+        if n_sends > bound.saturating_mul(o.weight.max(1)) {
             rec.fail(idx, format!("query {k}: {n_sends} upstream queries > proved bound {bound}"), "");
         }
         rec.stat(&format!("sends.{}", match n_sends { 0 => "0", 1..=3 => "1-3", 4..=9 => "4-9", 10..=29 => "10-29", _ => "30+" }));
@@ -944,7 +1051,7 @@ fn exec_res(line: &str, t: &[&str], rec: &mut Recorder) {
         if distinct_names.len() > 1 {
             rec.stat("path.cname-chase-upstream");
         }
-        if o.events.is_empty() && k > 0 {
+        if o.events.is_empty() && k > 0 && o.weight == 1 {
             rec.stat(if o.class == "ok" { "path.served-from-cache.positive" } else { "path.served-from-cache.negative-or-error" });
         }
         if o.events.iter().any(|e| matches!(e, Event::Dead(_))) {
@@ -1012,6 +1119,12 @@ pub fn run(o: &Opts, rec: &mut Recorder) {
     let n = o.n(150, 4000);
     for _ in 0..n {
         let line = stub::gen(&mut r);
+        exec(&line, rec);
+    }
+    // concurrent clients (servers answer after 2 ms of real time, so these are the slow cases)
+    let n = o.n(120, 2500);
+    for _ in 0..n {
+        let line = gen::conc_world(&mut r).line();
         exec(&line, rec);
     }
 }
@@ -1346,6 +1459,7 @@ pub mod gen {
                 groups: self.group_ips.iter().map(|ips| Group { ips: ips.clone(), default: refused.clone() }).collect(),
                 table,
                 queries,
+                conc: None,
             }
         }
     }
@@ -1650,6 +1764,58 @@ pub mod gen {
             let roots = w.group_ips[0].clone();
             out.push(("ttl-zero", w.case(roots, vec![(q1, 1), (q1, 1)], 24, 24)));
         }
+        // 14. concurrent clients: identical queries overlapping on a cached pool (request de-duplication) with an
+        //     answer filter; and different queries sharing their NS lookups on a cold recursor
+        {
+            let mut w = base(false);
+            let ge = w.std_group(2);
+            w.zone("example.com.", ge, &["ns1.example.com.", "ns2.example.com."], true);
+            let r = w.a("www.example.com.", v4(44, 1, 1, 1));
+            w.add_auto(r);
+            let r = w.a("www.example.com.", v4(44, 1, 1, 2));
+            w.add_auto(r);
+            let r = w.a("mail.example.com.", v4(44, 1, 1, 2));
+            w.add_auto(r);
+            w.finish();
+            let q1 = w.intern("www.example.com.");
+            let q2 = w.intern("mail.example.com.");
+            let roots = w.group_ips[0].clone();
+            let mut c = w.clone().case(roots.clone(), vec![(q1, 16), (q1, 1), (q1, 1), (q1, 1), (q1, 1)], 24, 24);
+            c.conc = Some((1, 3));
+            c.deny_ans = vec![net32(v4(44, 1, 1, 2))];
+            out.push(("concurrent-clients-answer-filter", c));
+            let mut c = w.clone().case(roots.clone(), vec![(q1, 16), (q2, 1), (q2, 1), (q2, 1), (q2, 1), (q2, 1)], 24, 24);
+            c.conc = Some((1, 4));
+            c.deny_ans = vec![net32(v4(44, 1, 1, 2))];
+            out.push(("concurrent-clients-answer-all-denied", c));
+            let mut c = w.case(roots, vec![(q1, 1), (q2, 1), (q1, 28), (q1, 1), (q1, 1), (q2, 1)], 24, 24);
+            c.conc = Some((0, 4));
+            c.deny_ans = vec![net32(v4(44, 1, 1, 2))];
+            out.push(("concurrent-clients-cold-different-queries", c));
+        }
+        {
+            // Kaminsky internet, four clients at once on a cold recursor
+            let mut w = base(true);
+            let gv = w.std_group(2);
+            w.zone("victim.com.", gv, &["ns1.victim.com.", "ns2.victim.com."], true);
+            let ga = w.std_group(2);
+            w.zone("attacker.com.", ga, &["ns1.attacker.com.", "ns2.attacker.com."], true);
+            let r = w.a("www.victim.com.", v4(44, 1, 1, 1));
+            w.add_auto(r);
+            let r = w.a("www.attacker.com.", v4(44, 2, 2, 2));
+            w.add_auto(r);
+            w.finish();
+            let inj = w.a("www.victim.com.", evil);
+            w.extras.push(Extra { group: ga, qname: None, qtype: None, section: 2, rec: inj });
+            let inj = w.nsrec("victim.com.", "ns1.attacker.com.");
+            w.extras.push(Extra { group: ga, qname: None, qtype: None, section: 1, rec: inj });
+            let q1 = w.intern("www.attacker.com.");
+            let q2 = w.intern("www.victim.com.");
+            let roots = w.group_ips[0].clone();
+            let mut c = w.case(roots, vec![(q1, 1), (q2, 1), (q1, 1), (q2, 1), (q2, 1), (q1, 1)], 24, 24);
+            c.conc = Some((0, 4));
+            out.push(("concurrent-clients-kaminsky", c));
+        }
         // 13b. negative answer carrying an in-bailiwick address the answer filter denies
         {
             let mut w = base(false);
@@ -1686,6 +1852,46 @@ pub mod gen {
         // the hand-built scenarios live in corpus/C19/*.case (written by C19_DUMP_SCENARIOS) and run first
         let _ = i;
         random_world(r).line()
+    }
+
+    /// concurrent clients on a random internet: an optional warm-up query (same name, other type: every pool
+    /// on the path ends up in the name-server cache), 2..4 clients at once (mostly the same query — request
+    /// de-duplication —, sometimes different ones sharing NS lookups), then the same queries again as probes;
+    /// half of the time the answer filter denies an address the batch query resolves to
+    pub fn conc_world(r: &mut Rng) -> Case {
+        let mut c = random_world(r);
+        let pool = c.queries.clone();
+        let main = *r.pick(&pool);
+        let k = r.range(2, 4) as usize;
+        let mut batch = vec![];
+        for _ in 0..k {
+            batch.push(if r.chance(3, 4) { main } else { *r.pick(&pool) });
+        }
+        let warm: Vec<(usize, u16)> = match r.below(4) {
+            0 => vec![],
+            1 => vec![*r.pick(&pool)],
+            _ => vec![(main.0, if main.1 == 16 { 1 } else { 16 })],
+        };
+        let mut probes = batch.clone();
+        probes.dedup();
+        c.conc = Some((warm.len(), batch.len()));
+        if r.chance(1, 2) {
+            // deny an address the main query resolves to (any server's answer for it)
+            let addrs: Vec<IpAddr> = c
+                .table
+                .iter()
+                .filter(|((_, n, t), _)| c.names[*n] == c.names[main.0] && *t == main.1)
+                .flat_map(|(_, resp)| resp.ans.iter().filter_map(rec_ip).collect::<Vec<_>>())
+                .collect();
+            if !addrs.is_empty() {
+                let ip = *r.pick(&addrs);
+                if !c.deny_ans.iter().any(|n| n.contains(&ip)) {
+                    c.deny_ans.push(net32(ip));
+                }
+            }
+        }
+        c.queries = warm.into_iter().chain(batch).chain(probes).collect();
+        c
     }
 
     const TLDS: [&str; 3] = ["com.", "net.", "org."];
@@ -1917,6 +2123,7 @@ mod stub {
             groups: vec![Group { ips: vec![UPSTREAM], default: Resp { rcode: 3, aa: true, ..Default::default() } }],
             table,
             queries: vec![(n.parse().ok()?, ty.parse().ok()?)],
+            conc: None,
         };
         let nn = c.names.len();
         let ok = c.table.iter().all(|((_, n, _), r)| {
@@ -1939,7 +2146,7 @@ mod stub {
         let rt = tokio::runtime::Builder::new_current_thread().enable_all().build().map_err(|e| e.to_string())?;
         rt.block_on(async move {
             let log = Arc::new(Mutex::new(vec![]));
-            let net = MockNet { case: case.clone(), log: log.clone(), rt: TokioRuntimeProvider::default() };
+            let net = MockNet { case: case.clone(), log: log.clone(), rt: TokioRuntimeProvider::default(), delay: if case.conc.is_some() { Duration::from_millis(2) } else { Duration::ZERO } };
             let config = ResolverConfig::from_parts(None, vec![], vec![NameServerConfig::udp(UPSTREAM)]);
             let mut opts = ResolverOpts::default();
             opts.attempts = 0;
